@@ -91,10 +91,43 @@ def run(seed_id, props):
     return res
 
 
+def table(ids, jobs=3):
+    """run every seeded change against its property's check (scratch copies, `jobs` at a time) and write seeded/CATCHES.md"""
+    import concurrent.futures as cf, io, contextlib
+
+    def one(i):
+        buf = io.StringIO()
+        with contextlib.redirect_stdout(buf):
+            res = run(i, [])
+        return i, res, buf.getvalue()
+    rows = []
+    with cf.ThreadPoolExecutor(jobs) as ex:
+        for i, res, out in ex.map(one, ids):
+            meta = json.load(open(os.path.join(VERIF, "seeded", i, "meta.json")))
+            ded = [l.strip()[3:] for l in out.splitlines() if l.strip().startswith("D:")]
+            bnd = [l.strip()[3:] for l in out.splitlines() if l.strip().startswith("B:")]
+            head = next((l for l in out.splitlines() if " vs " in l), "")
+            rows.append((i, meta["property"], res.get(meta["property"]), head.split(": ", 1)[-1], ded, bnd))
+            print(head, flush=True)
+    with open(os.path.join(VERIF, "seeded", "CATCHES.md"), "w") as f:
+        f.write("# Seeded changes and what reports them\n\nGenerated by `tools/seedtest.py table` (each change applied to a scratch copy of /repo HEAD, "
+                "`./check <property> --tier quick` with ACN_REPO pointing at the copy). D = failing deductive obligation (named), B = firing clause of a "
+                "bounded run-time monitor. Only the first few of each are listed.\n\n")
+        f.write("| change | property | exit | summary | deductive obligations | monitor clauses |\n|---|---|---|---|---|---|\n")
+        for i, prop, rc, head, ded, bnd in sorted(rows):
+            esc = lambda xs: "<br>".join(x.replace("|", "\\|")[:160] for x in xs[:3]) or "-"
+            f.write(f"| {i} | {prop} | {rc} | {head} | {esc(ded)} | {esc(bnd)} |\n")
+    missed = [r[0] for r in rows if r[2] != 1]
+    print("not reported with exit 1:", missed)
+
+
 if __name__ == "__main__":
     if sys.argv[1] == "confirm":
         confirm(sys.argv[2], sys.argv[3], int(sys.argv[4]) if len(sys.argv) > 4 else 0)
+    elif sys.argv[1] == "table":
+        allids = sorted(x for x in os.listdir(os.path.join(VERIF, "seeded")) if os.path.isdir(os.path.join(VERIF, "seeded", x)))
+        table([x for x in allids if not sys.argv[2:] or x in sys.argv[2:] or x.split("-")[0] in sys.argv[2:]])
     elif sys.argv[1] == "run":
-        ids = sorted(os.listdir(os.path.join(VERIF, "seeded"))) if sys.argv[2] == "all" else [sys.argv[2]]
+        ids = sorted(x for x in os.listdir(os.path.join(VERIF, "seeded")) if os.path.isdir(os.path.join(VERIF, "seeded", x))) if sys.argv[2] == "all" else [sys.argv[2]]
         for i in ids:
             run(i, sys.argv[3:])
